@@ -175,3 +175,430 @@ Proof.
   rewrite merge_lits_inst. apply subst_inst; assumption.
 Qed.
 End Subst.
+
+(* ------------------------------------------------------------------------------------------ *)
+(* the retrieval block                                                                          *)
+(* ------------------------------------------------------------------------------------------ *)
+Lemma param_nonempty : String.eqb "" param_name = false.
+Proof. reflexivity. Qed.
+
+Lemma line_env_free : forall (s : cspec) (tok : string) (p : pattern),
+  word_free param_name (cs_type s) = true -> word_free param_name tok = true ->
+  holes_free param_name (line_env s tok) p.
+Proof.
+  intros s tok p Ht Hk h _. unfold word_free in *. apply negb_true_iff in Ht. apply negb_true_iff in Hk.
+  destruct h; simpl; [reflexivity|exact Ht|exact Hk].
+Qed.
+
+(* what the substituted running code is, for every coder, spec, token name and replacement text *)
+Theorem fetch_lines_form : forall (cd : coder) (s : cspec) (tok lit : string),
+  forallb (fun p => sep_ok (compose (cs_str s) p)) (cd_lines cd) = true ->
+  word_free param_name (cs_type s) = true -> word_free param_name tok = true ->
+  map (subst_word param_name lit) (running_code cd s tok)
+  = map (fun p => inst (line_env s tok) lit (hole_form param_name (compose (cs_str s) p))) (cd_lines cd).
+Proof.
+  intros cd s tok lit Hs Ht Hk. unfold running_code. rewrite map_map.
+  apply map_ext_in. intros p Hin.
+  rewrite forallb_forall in Hs. specialize (Hs p Hin).
+  apply (subst_fstring param_name lit param_nonempty); [exact Hs|apply line_env_free; assumption].
+Qed.
+
+Theorem token_init_form : forall (cd : coder) (s : cspec) (tok : uname) (lit : string) (p : pattern) (tty : string),
+  cd_init cd = Some p -> token_type s = Some tty ->
+  sep_ok (compose (cs_str s) p) = true ->
+  word_free param_name (cs_type s) = true -> word_free param_name (render_name tok) = true ->
+  map (fun f => (fst f, subst_word param_name lit (snd f))) (token_fields cd s tok)
+  = [ (mk_vdecl tty tok, inst (line_env s (render_name tok)) lit (hole_form param_name (compose (cs_str s) p))) ].
+Proof.
+  intros cd s tok lit p tty Hi Ht Hs Hty Hk. unfold token_fields. rewrite Hi, Ht. simpl.
+  rewrite (subst_fstring param_name lit param_nonempty); [reflexivity|exact Hs|apply line_env_free; assumption].
+Qed.
+
+(* process_ast_node: where things go *)
+Definition use_var (v : cpv) (g : gstate) : uname := mk_uname (lower (cs_name (v_spec v))) (g_ctr g).
+Definition sub_arg (bank : string) (l : string) : string := subst_word param_name (cpp_string_literal bank) l.
+
+Theorem process_ast_node_shape : forall (v : cpv) (bank : string) (g : gstate),
+  v_args v = [param_name] ->
+  let '(g', r) := process_ast_node v bank g in
+  let var := use_var v g in
+  g_vars g' = g_vars g ++ [mk_vdecl (cont_str (v_spec v)) var]
+  /\ g_stmts g' = g_stmts g ++ [SBlk [] (map (fun l => SArb (sub_arg bank l)) (v_code v) ++ [SSet var (v_result v)])]
+  /\ g_class g' = g_class g ++ map fst (v_fields v)
+  /\ g_book g' = g_book g ++ map (fun f => SSet (vd_name (fst f)) (sub_arg bank (snd f))) (v_fields v)
+  /\ g_inc g' = add_all (v_includes v) (g_inc g)
+  /\ g_libs g' = add_all (v_libs v) (g_libs g)
+  /\ g_ctr g' = S (g_ctr g)
+  /\ r_name r = var /\ r_kind r = v_rep v.
+Proof.
+  intros v bank g Ha. unfold process_ast_node. rewrite Ha. simpl.
+  repeat split; reflexivity.
+Qed.
+
+(* number of assignments to a variable in a statement *)
+Fixpoint count_set (u : uname) (s : stmt) : nat :=
+  match s with
+  | SArb _ => 0
+  | SSet t _ => if uname_eqb t u then 1 else 0
+  | SBlk _ body => (fix go (l : list stmt) : nat := match l with [] => 0 | x :: r => count_set u x + go r end) body
+  end.
+Definition count_set_list (u : uname) (l : list stmt) : nat := fold_right (fun x n => count_set u x + n) 0%nat l.
+
+Lemma count_set_blk : forall u vars body, count_set u (SBlk vars body) = count_set_list u body.
+Proof. intros u vars body. simpl. induction body as [|x r IH]; simpl; [reflexivity|rewrite IH; reflexivity]. Qed.
+Lemma count_set_list_app : forall u a b, count_set_list u (a ++ b) = (count_set_list u a + count_set_list u b)%nat.
+Proof. intros u a b. induction a as [|x a IH]; simpl; [reflexivity|rewrite IH; lia]. Qed.
+Lemma count_set_arb : forall u (ls : list string), count_set_list u (map SArb ls) = 0%nat.
+Proof. intros u ls. induction ls as [|x r IH]; simpl; [reflexivity|exact IH]. Qed.
+Lemma uname_eqb_refl : forall u, uname_eqb u u = true.
+Proof. intros [b i]. unfold uname_eqb. simpl. rewrite String.eqb_refl, Nat.eqb_refl. reflexivity. Qed.
+
+(* the retrieval block assigns the result variable exactly once *)
+Theorem fetch_block_assigns_once : forall (u : uname) (lines : list string) (res : string),
+  count_set u (SBlk [] (map SArb lines ++ [SSet u res])) = 1%nat.
+Proof.
+  intros u lines res. rewrite count_set_blk, count_set_list_app, count_set_arb. simpl.
+  rewrite uname_eqb_refl. reflexivity.
+Qed.
+
+(* ------------------------------------------------------------------------------------------ *)
+(* includes and libraries                                                                       *)
+(* ------------------------------------------------------------------------------------------ *)
+Lemma mem_str_In : forall x l, mem_str x l = true <-> In x l.
+Proof.
+  intros x l. induction l as [|y r IH]; simpl; [split; [discriminate|tauto]|].
+  destruct (String.eqb x y) eqn:E.
+  - apply String.eqb_eq in E. subst. split; auto.
+  - apply String.eqb_neq in E. rewrite IH. split; [auto|intros [H|H]; [congruence|exact H]].
+Qed.
+
+Lemma add_unique_spec : forall x l, exists t, add_unique x l = l ++ t /\ In x (add_unique x l) /\ (NoDup l -> NoDup (add_unique x l)).
+Proof.
+  intros x l. unfold add_unique. destruct (mem_str x l) eqn:E.
+  - exists []. rewrite app_nil_r. apply mem_str_In in E. auto.
+  - exists [x]. split; [reflexivity|]. split; [apply in_or_app; right; left; reflexivity|].
+    intro Hn. assert (~ In x l) by (intro Hi; apply mem_str_In in Hi; congruence).
+    clear E. induction l as [|y r IH]; simpl.
+    + constructor; [tauto|constructor].
+    + inversion Hn; subst. constructor.
+      * intro Hi. apply in_app_or in Hi. destruct Hi as [Hi|[Hi|[]]]; [tauto|subst; apply H; left; reflexivity].
+      * apply IH; [assumption|intro Hi; apply H; right; exact Hi].
+Qed.
+
+Theorem add_all_spec : forall xs l,
+  (exists t, add_all xs l = l ++ t) /\ (forall x, In x xs -> In x (add_all xs l)) /\ (NoDup l -> NoDup (add_all xs l)).
+Proof.
+  induction xs as [|x xs IH]; intro l; simpl.
+  - split; [exists []; rewrite app_nil_r; reflexivity|]. split; [tauto|auto].
+  - destruct (add_unique_spec x l) as (t & Ht & Hin & Hnd).
+    destruct (IH (add_unique x l)) as ((t2 & Ht2) & Hall & Hnd2).
+    split; [exists (t ++ t2); unfold add_all in *; simpl; rewrite Ht2, Ht, app_assoc; reflexivity|].
+    split.
+    + intros y [Hy|Hy]; [subst y|exact (Hall y Hy)].
+      unfold add_all in *. simpl. rewrite Ht2. apply in_or_app. left. exact Hin.
+    + intro Hn. exact (Hnd2 (Hnd Hn)).
+Qed.
+
+(* over a whole sequence of uses: earlier requests stay (order kept), every use's headers and
+   libraries are present, nothing is requested twice *)
+Definition well_formed_cpvs (vs : list (cpv * string)) : Prop := forall v b, In (v, b) vs -> v_args v = [param_name].
+
+Lemma translate_uses_cons : forall v b vs g,
+  translate_uses ((v, b) :: vs) g
+  = let '(g1, rp) := process_ast_node v b g in let '(g2, rps) := translate_uses vs g1 in (g2, rp :: rps).
+Proof. reflexivity. Qed.
+
+Theorem translate_uses_requests : forall (vs : list (cpv * string)) (g g' : gstate) (reps : list rep),
+  translate_uses vs g = (g', reps) ->
+  (exists t, g_inc g' = g_inc g ++ t) /\ (exists t, g_libs g' = g_libs g ++ t)
+  /\ (forall v b x, In (v, b) vs -> In x (v_includes v) -> In x (g_inc g'))
+  /\ (forall v b x, In (v, b) vs -> In x (v_libs v) -> In x (g_libs g'))
+  /\ (NoDup (g_inc g) -> NoDup (g_inc g')) /\ (NoDup (g_libs g) -> NoDup (g_libs g')).
+Proof.
+  induction vs as [|[v b] vs IH]; intros g g' reps H; [simpl in H|rewrite translate_uses_cons in H].
+  - inversion H; subst. repeat split; try (exists []; rewrite app_nil_r; reflexivity); try tauto; intros ? ? ? [].
+  - destruct (process_ast_node v b g) as [g1 rp] eqn:E1.
+    destruct (translate_uses vs g1) as [g2 rps] eqn:E2. injection H as <- <-.
+    destruct (IH g1 g2 rps E2) as ((t1 & Hi) & (t2 & Hl) & Hinc & Hlib & Hn1 & Hn2).
+    assert (Hg1i : g_inc g1 = add_all (v_includes v) (g_inc g)) by (unfold process_ast_node in E1; inversion E1; reflexivity).
+    assert (Hg1l : g_libs g1 = add_all (v_libs v) (g_libs g)) by (unfold process_ast_node in E1; inversion E1; reflexivity).
+    destruct (add_all_spec (v_includes v) (g_inc g)) as ((ta & Hta) & Hia & Hna).
+    destruct (add_all_spec (v_libs v) (g_libs g)) as ((tb & Htb) & Hib & Hnb).
+    split; [exists (ta ++ t1); rewrite Hi, Hg1i, Hta, app_assoc; reflexivity|].
+    split; [exists (tb ++ t2); rewrite Hl, Hg1l, Htb, app_assoc; reflexivity|].
+    split; [|split; [|split]].
+    + intros v0 b0 x [Hv|Hv] Hx.
+      * inversion Hv; subst v0 b0. rewrite Hi. apply in_or_app. left. rewrite Hg1i. apply Hia. exact Hx.
+      * exact (Hinc v0 b0 x Hv Hx).
+    + intros v0 b0 x [Hv|Hv] Hx.
+      * inversion Hv; subst v0 b0. rewrite Hl. apply in_or_app. left. rewrite Hg1l. apply Hib. exact Hx.
+      * exact (Hlib v0 b0 x Hv Hx).
+    + intro Hn. apply Hn1. rewrite Hg1i. apply Hna. exact Hn.
+    + intro Hn. apply Hn2. rewrite Hg1l. apply Hnb. exact Hn.
+Qed.
+
+(* ------------------------------------------------------------------------------------------ *)
+(* result variables and tokens over a sequence of uses                                          *)
+(* ------------------------------------------------------------------------------------------ *)
+Lemma translate_uses_state : forall (vs : list (cpv * string)) (g g' : gstate) (reps : list rep),
+  translate_uses vs g = (g', reps) ->
+  g_ctr g' = (g_ctr g + List.length vs)%nat
+  /\ map r_name reps = map (fun iv => mk_uname (lower (cs_name (v_spec (fst (snd iv))))) (fst iv))
+                           (combine (seq (g_ctr g) (List.length vs)) vs)
+  /\ g_class g' = g_class g ++ flat_map (fun vb => map fst (v_fields (fst vb))) vs
+  /\ g_book g' = g_book g ++ flat_map (fun vb => map (fun f => SSet (vd_name (fst f))
+                       (fold_left (fun acc a => subst_word a (cpp_string_literal (snd vb)) acc) (v_args (fst vb)) (snd f)))
+                       (v_fields (fst vb))) vs
+  /\ map r_kind reps = map (fun vb => v_rep (fst vb)) vs.
+Proof.
+  induction vs as [|[v b] vs IH]; intros g g' reps H; [simpl in H|rewrite translate_uses_cons in H].
+  - inversion H; subst. simpl. rewrite !app_nil_r. repeat split; lia.
+  - destruct (process_ast_node v b g) as [g1 rp] eqn:E1.
+    destruct (translate_uses vs g1) as [g2 rps] eqn:E2. injection H as <- <-.
+    destruct (IH g1 g2 rps E2) as (Hc & Hn & Hcl & Hb & Hk).
+    unfold process_ast_node in E1. inversion E1; subst g1 rp; clear E1. simpl in *.
+    rewrite Hc, Hn, Hcl, Hb, Hk. rewrite <- !app_assoc.
+    repeat split; try reflexivity; lia.
+Qed.
+
+Lemma seq_names_nodup : forall (f : nat -> string) (a n : nat) (l : list (cpv * string)),
+  NoDup (map (fun iv : nat * (cpv * string) => mk_uname (lower (cs_name (v_spec (fst (snd iv))))) (fst iv)) (combine (seq a n) l)).
+Proof.
+  intros f a n l. revert a l. induction n as [|n IH]; intros a l; simpl; [constructor|].
+  destruct l as [|x l]; simpl; [constructor|].
+  constructor; [|apply IH].
+  intro Hin. apply in_map_iff in Hin. destruct Hin as ((i, y) & Heq & Hin).
+  inversion Heq as [[Hb Hi]]. simpl in *. apply in_combine_l in Hin. apply in_seq in Hin. lia.
+Qed.
+
+(* the result variables of different uses are pairwise distinct *)
+Theorem result_vars_distinct : forall (vs : list (cpv * string)) (g g' : gstate) (reps : list rep),
+  translate_uses vs g = (g', reps) -> NoDup (map r_name reps).
+Proof.
+  intros vs g g' reps H. destruct (translate_uses_state vs g g' reps H) as (_ & Hn & _).
+  rewrite Hn. apply (seq_names_nodup (fun _ => "")).
+Qed.
+
+(* find_uses with a per-call token: use number k (from 0) gets the token named by counter ctr+k *)
+Definition has_token (cd : coder) (s : cspec) : Prop := exists p tty, cd_init cd = Some p /\ token_type s = Some tty.
+
+Theorem find_uses_tokens : forall (B : backend) (declared : list cspec) (us : list use) (ctr : nat)
+                                  (vs : list (cpv * string)) (ctr' : nat),
+  cd_alloc (b_coder B) = TokPerCall ->
+  (forall n s, lookup_collection B declared n = Some s -> has_token (b_coder B) s) ->
+  find_uses B declared us ctr = OK (vs, ctr') ->
+  ctr' = (ctr + List.length us)%nat
+  /\ flat_map (fun vb => map (fun f => vd_name (fst f)) (v_fields (fst vb))) vs = map (mk_uname "token") (seq ctr (List.length us))
+  /\ map snd vs = map bank_of us
+  /\ List.length vs = List.length us.
+Proof.
+  intros B declared us. induction us as [|u us IH]; intros ctr vs ctr' Ha Htok H; simpl in H.
+  - inversion H; subst. simpl. repeat split; lia.
+  - destruct (lookup_collection B declared (u_name u)) as [s|] eqn:El; [|discriminate].
+    unfold get_collection in H. rewrite Ha in H.
+    destruct (u_args u) as [|[b|] [|a2 rest]] eqn:Ea; simpl in H; try discriminate.
+    destruct (find_uses B declared us (S ctr)) as [[rest' c2]|e] eqn:Er; simpl in H; [|discriminate].
+    inversion H; subst vs ctr'. clear H.
+    destruct (IH (S ctr) rest' c2 Ha Htok Er) as (Hc & Hf & Hb & Hl).
+    destruct (Htok _ _ El) as (p & tty & Hp & Ht).
+    simpl. unfold token_fields. rewrite Hp, Ht. simpl. rewrite Hf, Hb, Hl.
+    repeat split; try reflexivity; lia.
+Qed.
+
+Lemma token_names_nodup : forall a n, NoDup (map (mk_uname "token") (seq a n)).
+Proof.
+  intros a n. revert a. induction n as [|n IH]; intro a; simpl; [constructor|].
+  constructor; [|apply IH].
+  intro Hin. apply in_map_iff in Hin. destruct Hin as (i & Heq & Hin).
+  inversion Heq. apply in_seq in Hin. lia.
+Qed.
+
+(* ------------------------------------------------------------------------------------------ *)
+(* singletons and collections                                                                   *)
+(* ------------------------------------------------------------------------------------------ *)
+Theorem get_collection_rep : forall cd s args ctr v ctr',
+  get_collection cd s args ctr = OK (v, ctr') ->
+  v_args v = [param_name] /\ v_spec v = s /\ v_includes v = cs_includes s /\ v_libs v = cs_libs s
+  /\ v_result v = "result"
+  /\ v_rep v = match cs_kind s with KColl => RColl | KSingle => RVar end
+  /\ exists b, args = [AStr b].
+Proof.
+  intros cd s args ctr v ctr' H. unfold get_collection in H.
+  destruct args as [|[b|] [|a2 rest]]; try discriminate.
+  destruct (cd_alloc cd); inversion H; subst; simpl; repeat split; eauto.
+Qed.
+
+Theorem get_collection_malformed : forall cd s args ctr,
+  (forall b, args <> [AStr b]) -> get_collection cd s args ctr = Error ErrValue.
+Proof.
+  intros cd s args ctr H. unfold get_collection.
+  destruct args as [|[b|] [|a2 rest]]; try reflexivity. exfalso. apply (H b). reflexivity.
+Qed.
+
+Theorem singleton_never_iterated : forall r iter, r_kind r = RVar -> as_sequence r iter = Error ErrValue.
+Proof. intros r iter H. unfold as_sequence. rewrite H. reflexivity. Qed.
+
+Theorem collection_iterated : forall r iter, r_kind r = RColl ->
+  as_sequence r iter = OK ("for (auto &&" +++ iter +++ " : " +++ (if (0 <? r_pd r)%nat then "*" +++ render_name (r_name r) else render_name (r_name r)) +++ ")",
+                           (r_elem r, r_pd_elem r)).
+Proof. intros r iter H. unfold as_sequence, deref_expr. rewrite H. reflexivity. Qed.
+
+Theorem member_access_kind : forall e pd, member_access e pd 0 = if (0 <? pd)%nat then wrap_deref (pd - 1) e +++ "->" else e +++ ".".
+Proof. intros e pd. unfold member_access. destruct pd; simpl; [reflexivity|]. rewrite Nat.sub_0_r. reflexivity. Qed.
+
+(* ------------------------------------------------------------------------------------------ *)
+(* metadata declarations                                                                        *)
+(* ------------------------------------------------------------------------------------------ *)
+Theorem override_last_wins : forall (B : backend) (pre post : list cspec) (s : cspec),
+  (forall s', In s' post -> cs_name s' <> cs_name s) ->
+  lookup_collection B (pre ++ s :: post) (cs_name s) = Some s.
+Proof.
+  intros B pre post s Hpost. unfold lookup_collection.
+  assert (Hp : find_last (cs_name s) post = None).
+  { induction post as [|y r IH]; simpl; [reflexivity|].
+    rewrite IH; [|intros s' Hs'; apply Hpost; right; exact Hs'].
+    destruct (String.eqb (cs_name s) (cs_name y)) eqn:E; [|reflexivity].
+    apply String.eqb_eq in E. exfalso. apply (Hpost y); [left; reflexivity|congruence]. }
+  assert (Hs : find_last (cs_name s) (s :: post) = Some s) by (simpl; rewrite Hp, String.eqb_refl; reflexivity).
+  assert (Hall : find_last (cs_name s) (pre ++ s :: post) = Some s).
+  { induction pre as [|y r IH]; simpl; [simpl in Hs; exact Hs|]. rewrite IH. reflexivity. }
+  rewrite Hall. reflexivity.
+Qed.
+
+Theorem builtin_when_not_declared : forall (B : backend) (declared : list cspec) (n : string),
+  (forall s', In s' declared -> cs_name s' <> n) ->
+  lookup_collection B declared n = find_last n (b_table B).
+Proof.
+  intros B declared n H. unfold lookup_collection.
+  assert (Hp : find_last n declared = None).
+  { induction declared as [|y r IH]; simpl; [reflexivity|].
+    rewrite IH; [|intros s' Hs'; apply H; right; exact Hs'].
+    destruct (String.eqb n (cs_name y)) eqn:E; [|reflexivity].
+    apply String.eqb_eq in E. exfalso. apply (H y); [left; reflexivity|congruence]. }
+  rewrite Hp. reflexivity.
+Qed.
+
+Theorem foreign_backend_refused : forall B s, cs_backend s <> b_accepts B -> build_collection_callback B s = Error ErrValue.
+Proof.
+  intros B s H. unfold build_collection_callback.
+  destruct (String.eqb (cs_backend s) (b_accepts B)) eqn:E; [apply String.eqb_eq in E; contradiction|reflexivity].
+Qed.
+
+Theorem check_backends_ok : forall B l, check_backends B l = OK tt -> forall s, In s l -> cs_backend s = b_accepts B.
+Proof.
+  intros B l. induction l as [|x r IH]; intros H s Hin; [destruct Hin|].
+  simpl in H. unfold build_collection_callback in H.
+  destruct (String.eqb (cs_backend x) (b_accepts B)) eqn:E; simpl in H; [|discriminate].
+  destruct Hin as [Hx|Hx]; [subst; apply String.eqb_eq; exact E|exact (IH H s Hx)].
+Qed.
+
+Theorem check_backends_refuses : forall B l s, In s l -> cs_backend s <> b_accepts B -> check_backends B l = Error ErrValue.
+Proof.
+  intros B l. induction l as [|x r IH]; intros s Hin Hne; [destruct Hin|].
+  simpl. unfold build_collection_callback.
+  destruct (String.eqb (cs_backend x) (b_accepts B)) eqn:E; simpl.
+  - destruct Hin as [Hx|Hx]; [subst; apply String.eqb_eq in E; contradiction|exact (IH s Hx Hne)].
+  - reflexivity.
+Qed.
+
+Definition is_error {A} (r : result A) : Prop := match r with Error _ => True | OK _ => False end.
+Definition rejected {A} (r : result A) : Prop := r = Error ErrValue \/ r = Error ErrKey.
+
+Section Decl.
+Variable ks : list mdkind.
+Variable d : mdict.
+Variable t : string.
+Variable k : mdkind.
+Hypothesis Ht : md_get "metadata_type" d = Some (MStr t).
+Hypothesis Hk : find_kind t ks = Some k.
+
+Theorem decl_unexpected_key : unexpected_key k d = true -> process_decl ks d = Error ErrValue.
+Proof. intro H. unfold process_decl. rewrite Ht, Hk, H. reflexivity. Qed.
+
+Theorem decl_mismatch : forall cc,
+  md_get "contains_collection" d = Some (MBool cc) -> md_has "element_type" d = negb cc ->
+  process_decl ks d = Error ErrValue.
+Proof.
+  intros cc Hc He. unfold process_decl. rewrite Ht, Hk.
+  destruct (unexpected_key k d); [reflexivity|].
+  unfold req_bool. rewrite Hc. simpl. rewrite He. destruct cc; reflexivity.
+Qed.
+
+Ltac step_req H :=
+  match goal with
+  | |- context [md_get ?key d] => destruct (md_get key d) as [[?|?|?]|] eqn:?; simpl; try (right; reflexivity); try (left; reflexivity); try tauto
+  end.
+
+Theorem decl_missing_key : forall key,
+  In key ["contains_collection"; "container_type"; "name"; "include_files"] ->
+  md_get key d = None -> is_error (process_decl ks d).
+Proof.
+  intros key Hin Hnone. unfold process_decl. rewrite Ht, Hk.
+  destruct (unexpected_key k d); [exact I|].
+  unfold req_bool, req_str, req_list, md_has, unmodelled.
+  simpl in Hin.
+  destruct (md_get "contains_collection" d) as [[?|cc|?]|] eqn:Ecc; simpl; try exact I.
+  destruct (md_get "element_type" d) as [[et|?|?]|] eqn:Eet; destruct cc; simpl; try exact I;
+  destruct (md_get "container_type" d) as [[ty|?|?]|] eqn:Ety; simpl; try exact I;
+  try (destruct (mk_single k); simpl; try exact I);
+  destruct (mk_libs k); simpl;
+  try (destruct (md_get "link_libraries" d) as [[?|?|?]|]; simpl; try exact I);
+  destruct (mk_elem_ptr k); simpl;
+  try (destruct (md_get "element_pointer" d) as [[?|?|?]|]; simpl; try exact I);
+  destruct (md_get "name" d) as [[nm|?|?]|] eqn:Enm; simpl; try exact I;
+  destruct (md_get "include_files" d) as [[?|?|inc]|] eqn:Einc; simpl; try exact I;
+  (destruct Hin as [Hin|[Hin|[Hin|[Hin|[]]]]]; subst key; congruence).
+Qed.
+
+(* what a successfully processed declaration is *)
+Theorem decl_ok_shape : forall s, process_decl ks d = OK s ->
+  unexpected_key k d = false
+  /\ cs_backend s = mk_bname k
+  /\ md_get "name" d = Some (MStr (cs_name s))
+  /\ md_get "container_type" d = Some (MStr (cs_type s))
+  /\ md_get "include_files" d = Some (MList (cs_includes s))
+  /\ ((md_get "contains_collection" d = Some (MBool true) /\ cs_kind s = cc_kind (mk_coll k) /\ cs_str s = cc_str (mk_coll k) /\ cs_token s = cc_token (mk_coll k)
+       /\ md_get "element_type" d = Some (MStr (cs_elem s)))
+      \/ (md_get "contains_collection" d = Some (MBool false) /\ exists c, mk_single k = Some c /\ cs_kind s = cc_kind c /\ cs_str s = cc_str c /\ cs_token s = cc_token c))
+  /\ (mk_libs k = false -> cs_libs s = [])
+  /\ (mk_libs k = true -> md_get "link_libraries" d = None /\ cs_libs s = [] \/ md_get "link_libraries" d = Some (MList (cs_libs s))).
+Proof.
+  intros s H. unfold process_decl in H. rewrite Ht, Hk in H.
+  destruct (unexpected_key k d); [discriminate|].
+  unfold req_bool, req_str, req_list, md_has, unmodelled in H.
+  destruct (md_get "contains_collection" d) as [[?|cc|?]|] eqn:Ecc; simpl in H; try discriminate.
+  destruct (md_get "element_type" d) as [[et|?|?]|] eqn:Eet; destruct cc; simpl in H; try discriminate;
+  destruct (md_get "container_type" d) as [[ty|?|?]|] eqn:Ety; simpl in H; try discriminate;
+  try (destruct (mk_single k) as [c|] eqn:Esg; simpl in H; try discriminate);
+  destruct (mk_libs k) eqn:Elb; simpl in H;
+  try (destruct (md_get "link_libraries" d) as [[?|?|?]|] eqn:Ell; simpl in H; try discriminate);
+  destruct (mk_elem_ptr k); simpl in H;
+  try (destruct (md_get "element_pointer" d) as [[?|?|?]|]; simpl in H; try discriminate);
+  destruct (md_get "name" d) as [[nm|?|?]|] eqn:Enm; simpl in H; try discriminate;
+  destruct (md_get "include_files" d) as [[?|?|inc]|] eqn:Einc; simpl in H; try discriminate;
+  inversion H; subst s; simpl;
+  (split; [reflexivity|]); (split; [reflexivity|]); (split; [reflexivity|]); (split; [reflexivity|]); (split; [reflexivity|]);
+  (split; [first [left; repeat split; reflexivity | right; split; [reflexivity|]; eexists; repeat split; reflexivity]|]);
+  (split; [intro; first [reflexivity|discriminate]|intro; first [discriminate | left; split; reflexivity | right; reflexivity]]).
+Qed.
+End Decl.
+
+Theorem process_metadata_all : forall ks ds specs, process_metadata ks ds = OK specs ->
+  Forall2 (fun d s => process_decl ks d = OK s) ds specs.
+Proof.
+  intros ks ds. induction ds as [|d r IH]; intros specs H; simpl in H.
+  - inversion H. constructor.
+  - destruct (process_decl ks d) as [s|e] eqn:E; simpl in H; [|discriminate].
+    destruct (process_metadata ks r) as [rest|e] eqn:Er; simpl in H; [|discriminate].
+    inversion H; subst. constructor; [exact E|apply IH; reflexivity].
+Qed.
+
+Theorem process_metadata_refuses : forall ks ds d e, In d ds -> process_decl ks d = Error e ->
+  is_error (process_metadata ks ds).
+Proof.
+  intros ks ds. induction ds as [|x r IH]; intros d e Hin He; [destruct Hin|].
+  simpl. destruct Hin as [Hx|Hx].
+  - subst x. rewrite He. exact I.
+  - destruct (process_decl ks x); simpl; [|exact I].
+    specialize (IH d e Hx He). destruct (process_metadata ks r); simpl; [destruct IH|exact I].
+Qed.
